@@ -66,6 +66,7 @@ func sameOpts(a, b []grpc.CallOption) bool {
 }
 
 func checkC17(e *core.Env) {
+	curEnv = e
 	e.SetRule("exhaustive: wrapping depth 1..4 x {unary-only, stream-only, both} interceptors per layer x base channel {recording fake, real *grpc.ClientConn (bufconn), in-process, HTTP} x behaviour {all pass, layer k short-circuits, layer k appends a call option}; every call is judged from the ordered log of instrumented interceptors and the recording base; distinct = distinct configurations")
 	e.SetExhaustive(true)
 	svc := &Service{}
